@@ -71,7 +71,7 @@ fn proxy_headers(run: &mut Run) -> u64 {
     cfg.network.runs_behind_reverse_proxy = true;
     cfg.network.reverse_proxy_ip_header_name = "X-Forwarded-For".into();
     let path = http_announce_path(&[1; 20], &[2; 20], 7777, 1, "started", None, 0);
-    let values: Vec<(&str, IpAddr)> = vec![("203.0.113.7", "203.0.113.7".parse().unwrap()), ("2001:db8::7", "2001:db8::7".parse().unwrap()), ("::ffff:198.51.100.9", "::ffff:198.51.100.9".parse().unwrap()), ("10.0.0.1", "10.0.0.1".parse().unwrap())];
+    let values: Vec<(&str, IpAddr)> = vec![("203.0.113.7", "203.0.113.7".parse().unwrap()), ("2001:db8::7", "2001:db8::7".parse().unwrap()), ("::ffff:198.51.100.9", "::ffff:198.51.100.9".parse().unwrap()), ("10.0.0.1", "10.0.0.1".parse().unwrap()), ("2001:db8::1:2", "2001:db8::1:2".parse().unwrap()), ("fe80::a:b:c:d", "fe80::a:b:c:d".parse().unwrap())];
     let ws = ["", " ", "\t", " \t "];
     let others = ["User-Agent: x\r\n", "X-Forwarded-Host: 9.9.9.9\r\n", "x-forwarded-for-not: 8.8.8.8\r\n"];
     // occurrences 1..=3, values per occurrence 1..=3
@@ -179,7 +179,7 @@ fn udp_e2e(uring: bool, use4: bool, use6: bool, only6: bool) -> (u64, Vec<V>, St
     let cfg = json!({"socket_workers": 1, "network": {"use_io_uring": uring, "use_ipv4": use4, "use_ipv6": use6, "set_only_ipv6": only6}});
     let mut t = TrackerChild::spawn("udp", cfg, &[]);
     if !t.wait_ready(30) {
-        let line = t.line_with("RUN-RETURNED").unwrap_or_default();
+        let line = t.line_with_wait("RUN-RETURNED", 3000).unwrap_or_default();
         return (0, vec![], format!("{}: not served ({})", label, line.chars().take(120).collect::<String>()));
     }
     let mut viols = Vec::new();
@@ -264,7 +264,7 @@ fn http_e2e(use4: bool, use6: bool, only6: bool) -> (u64, Vec<V>, String) {
     let cfg = json!({"network": {"use_ipv4": use4, "use_ipv6": use6, "set_only_ipv6": only6}});
     let mut t = TrackerChild::spawn("http", cfg, &[]);
     if !t.wait_ready(30) {
-        let line = t.line_with("RUN-RETURNED").unwrap_or_default();
+        let line = t.line_with_wait("RUN-RETURNED", 3000).unwrap_or_default();
         return (0, vec![], format!("{}: not served ({})", label, line.chars().take(120).collect::<String>()));
     }
     let mut viols = Vec::new();
